@@ -961,3 +961,77 @@ func intrSyncMapDelete(c *icall) {
 func intrSyncMapUnsupported(c *icall) {
 	unsupported(c.curPos(), "sync.Map method %s (not modelled)", c.fn.Name())
 }
+
+// ---- sync.Pool (model: a LIFO list kept in the struct's `local` field; Get either reuses the
+// most recently put item or - a second alternative explored by the engine - behaves as if the
+// pool had been emptied by the collector: New() or nil) ----
+
+const (
+	syncPoolLocalField = 1 // sync.Pool{noCopy, local, localSize, victim, victimSize, New}
+	syncPoolNewField   = 5
+)
+
+func syncPoolItems(c *icall, p Ptr) (Ptr, Tuple) {
+	fp := p.Field(syncPoolLocalField)
+	ip, _ := c.st.load(fp).(Ptr)
+	if ip.IsNil() {
+		return fp, nil
+	}
+	tu, _ := c.st.obj(ip.Obj).(Tuple)
+	return fp, tu
+}
+
+func intrSyncPoolPut(c *icall) {
+	p := c.args[0].(Ptr)
+	nilRecv(c, p)
+	c.e.visible(c.st, c.g, Op{Kind: opAtomic, Obj: keyOf(p), Ptr: p, Write: true, Pos: c.curPos()})
+	if c.st.race != nil {
+		c.st.race.onRelease(c.g, keyOf(p))
+		c.st.race.onAcquire(c.g, keyOf(p))
+	}
+	if iv, ok := c.args[1].(Iface); ok && iv.T == nil {
+		c.ret(nil) // Put(nil) is ignored
+		return
+	}
+	fp, items := syncPoolItems(c, p)
+	n := make(Tuple, len(items)+1)
+	copy(n, items)
+	n[len(items)] = c.args[1]
+	if ip, _ := c.st.load(fp).(Ptr); ip.IsNil() {
+		c.st.store(fp, Ptr{Obj: c.st.alloc(c.g, n)})
+	} else {
+		c.st.setObj(ip.Obj, n)
+	}
+	c.ret(nil)
+}
+
+func intrSyncPoolGet(c *icall) {
+	p := c.args[0].(Ptr)
+	nilRecv(c, p)
+	c.e.visible(c.st, c.g, Op{Kind: opAtomic, Obj: keyOf(p), Ptr: p, Write: true, Pos: c.curPos()})
+	if c.st.race != nil {
+		c.st.race.onRelease(c.g, keyOf(p))
+		c.st.race.onAcquire(c.g, keyOf(p))
+	}
+	fp, items := syncPoolItems(c, p)
+	reuse := false
+	if len(items) > 0 {
+		reuse = c.e.decide(c.w, c.st, "pool", c.e.posStr(c.curPos()), []*Term{TrueT, TrueT}) == 0
+	}
+	if reuse {
+		ip := c.st.load(fp).(Ptr)
+		v := items[len(items)-1]
+		c.st.setObj(ip.Obj, append(Tuple{}, items[:len(items)-1]...))
+		c.ret(v)
+		return
+	}
+	nf, _ := c.st.load(p.Field(syncPoolNewField)).(*Closure)
+	if nf == nil {
+		c.ret(c.anyZero())
+		return
+	}
+	if c.in == nil {
+		unsupported(c.curPos(), "deferred sync.Pool.Get")
+	}
+	c.e.pushCall(c.w, c.st, c.g, nf, nil, fkCall, c.curPos())
+}
